@@ -21,4 +21,13 @@ def main(argv=None):
 
 
 if __name__ == '__main__':
-    sys.exit(main())
+    try:
+        rc = main()
+    except SystemExit:
+        raise
+    except BaseException:   # noqa: BLE001 - a crash of the machinery must never look like a violation (exit 1)
+        import traceback
+        traceback.print_exc()
+        print('HARNESS-ERROR the check itself crashed')
+        rc = 2
+    sys.exit(rc)
